@@ -1,2 +1,40 @@
-(* Spec/MashSpec.v — specification-level definitions. *)
+(* Spec/MashSpec.v — what C17 talks about: the n smallest distinct values of a
+   list of hash values, and the Mash distance as a function of a real Jaccard
+   index. *)
+From Coq Require Import Reals Sorted.
 From Bio Require Import Base.
+
+(* insertion into a strictly ascending list; a value already present is dropped *)
+Fixpoint ins_asc (x : N) (l : list N) : list N :=
+  match l with
+  | [] => [x]
+  | y :: r => if x <? y then x :: l else if x =? y then l else y :: ins_asc x r
+  end.
+
+(* the distinct values of l in ascending order *)
+Definition sort_dedup (l : list N) : list N := fold_left (fun acc x => ins_asc x acc) l [].
+
+(* the sketch of size n of a multiset of hash values: its n smallest distinct
+   values, largest first *)
+Definition sketch_of (n : Z) (hs : list N) : list N := rev (firstn (Z.to_nat n) (sort_dedup hs)).
+
+Definition asc (l : list N) : Prop := StronglySorted N.lt l.
+Definition desc (l : list N) : Prop := StronglySorted (fun a b => b < a) l.
+
+(* the last n elements *)
+Definition lastn {A} (n : nat) (l : list A) : list A := skipn (length l - n) l.
+
+(* number of values among the n smallest of the union that both sides have *)
+Definition shared_bottom (n : nat) (a b : list N) : nat :=
+  length (filter (fun x => memb x a && memb x b) (firstn n (sort_dedup (a ++ b)))).
+
+(* ---- Mash distance over the reals --------------------------------------- *)
+Local Open Scope R_scope.
+
+(* FromJaccard: 1 for j = 0, else min(1, -ln(2j/(1+j))/k) *)
+Definition mash_dist (j : R) (k : nat) : R :=
+  if Req_EM_T j 0 then 1 else Rmin 1 (- ln (2 * j / (1 + j)) / INR k).
+
+(* Distance of two sketches whose intersect loop returned (i, u) *)
+Definition mash_dist_pair (iu : Z * Z) (k : nat) : R :=
+  mash_dist (IZR (fst iu) / IZR (snd iu)) k.
